@@ -7,8 +7,7 @@ The three sources of non-determinism / effects of the module become parameters a
   * `loop.call_at(when, self.async_ready)` and `zc.async_send(construct_outgoing_multicast_answers(answers))` are returned, in
     order, as `QEffect`s (`when` in milliseconds).
 `deque` is a list; the `while` of `async_ready` is bounded by the queue length at entry (`while_fuel`).
-Records are the Reply model's `RecId`.  Not translated: `async_remove_answers` (dict comprehension rebuilding `pending.answers`
-with set differences; not used by the Reply model's queue)."""
+Records are the Reply model's `RecId`."""
 AREA = "Queue"
 SOURCE = "_handlers/multicast_outgoing_queue.py"
 IMPORTS = ["Zc.Model.Basic"]
@@ -56,6 +55,7 @@ CLASSES = [
         "methods": [
             {"name": "async_add", "params": [("now", "Num"), ("answers", ANS)], "ret": "None",
              "env": [("RAND_INT", "Num", ["Num", "Num"]), ("loop_time_ms", "Num")]},
+            {"name": "async_remove_answers", "params": [("records", "List[RecId]")], "ret": "None"},
             {"name": "_remove_answers_from_queue", "params": [("answers", ANS)], "ret": "None"},
             {"name": "async_ready", "params": [], "ret": "None", "env": [("current_time_millis", "Num"), ("loop_time_ms", "Num")],
              "while_fuel": ["len(self.queue)"]},
